@@ -181,7 +181,26 @@ def prelude_prior_reused(S, pb):
                           units.Quantity(symnp.SymArray(symnp._obj(err), symnp._F8), dunit))
     ids = symnp.SymArray(symnp._obj([survey_of(i, nt, noff) for i in range(nt)]), symnp._I8) if noff else None
     trend_M = st.likelihood_helpers.get_trend_design_matrix(data, ids, npoly)
-    h = S.Helper(data, pb["prior"], trend_M)
+    prior = pb["prior"]
+    if pb.get("history") == "other_prior_first":
+        # ANOTHER prior object with the same parameter names and kinds but its own (symbolic) numbers was used before
+        model = {}
+        for nm, d in pb["prior"].model.items():
+            extra = {k: getattr(d, k) for k in ("_sigma_K0", "_max_K", "_P0") if hasattr(d, k)}
+            if extra:
+                un = getattr(d, "__tensor_unit__")
+                extra = {"_sigma_K0": units.Quantity(core.real("pre_sigma_K0"), un), "_max_K": units.Quantity(core.real("pre_max_K"), un),
+                         "_P0": units.Quantity(core.real("pre_P0"), extra["_P0"].unit)}
+                for q in extra.values():
+                    core.assume(q.value > 0)
+            sd = core.real("pre_sd_" + nm)
+            core.assume(sd > 0)
+            model[nm] = Dist(nm, d.owner.op._print_name[0], core.real("pre_mu_" + nm), sd, getattr(d, "__tensor_unit__"), **extra)
+        pp = pb["prior"]
+        prior = types.SimpleNamespace(v0_offsets=[model[o.name] for o in pp.v0_offsets], _v_trend_names=list(pp._v_trend_names), poly_trend=pp.poly_trend,
+                                      n_offsets=pp.n_offsets, par_names=list(pp.par_names), model=model, pars=dict(model, P=pp.pars["P"]),
+                                      _linear_equiv_units=pp._linear_equiv_units)
+    h = S.Helper(data, prior, trend_M)
     row = chunk_rows(1, tag="pre")
     h.batch_marginal_ln_likelihood(symnp.SymArray(symnp._obj([list(r) for r in row]), symnp._F8))
     del S.rec.calls[:]          # the recorder holds the stub calls of the run under check only
@@ -240,7 +259,7 @@ def spec_prior_slots(pb, row):
 def run_marginal(S, pb, rows):
     """construct the helper (real __init__) and run batch_marginal_ln_likelihood on the chunk"""
     chunk = symnp.SymArray(symnp._obj([list(r) for r in rows]), symnp._F8)
-    if pb.get("history") == "prior_reused":
+    if pb.get("history") in ("prior_reused", "other_prior_first"):
         prelude_prior_reused(S, pb)
     h = S.Helper(pb["data"], pb["prior"], pb["trend_M"])
     ll = h.batch_marginal_ln_likelihood(chunk)
